@@ -39,6 +39,7 @@ func (c *Chain) forkChain(name string) *Chain {
 	s.wrongTargetIncluded = map[common.Epoch]int{}
 	s.syncTargetsDone = map[common.Epoch]bool{0: true, 1: true, 2: true, 3: true} // no timed exits on the side branch
 	s.zeroKeys, s.zeroIndex = map[KeyNum]bool{}, map[common.ValidatorIndex]bool{}
+	s.partialKeys = map[KeyNum]bool{}
 	s.justified = map[common.Epoch]bool{}
 	s.modeOf = map[common.Epoch]string{}
 	s.heldEpc, s.heldSt = nil, nil
